@@ -14,7 +14,7 @@ const INTERESTING: &[&str] = &[
     "int_addsub", "int_mul", "int_floordiv", "int_mod", "true_div", "float_addsub", "float_mul", "float_mod", "float_floordiv", "cmp_mixed",
     "if", "elif", "while", "for_range", "for_list_int", "break", "continue", "reassign", "aug_assign", "shadow", "list_append", "list_set_index",
     "list_index", "list_slice", "str_index", "str_slice", "str_upper", "str_replace", "fstring", "comprehension", "match_enum", "match_option",
-    "match_result", "try_operator", "method_call", "mut_method_call", "field_set", "dict_get", "dict_set", "call",
+    "match_result", "try_operator", "operator_matrix", "scope_matrix", "method_call", "mut_method_call", "field_set", "dict_get", "dict_set", "call",
 ];
 
 fn nontrivial(c: &Case) -> bool {
@@ -113,7 +113,24 @@ pub fn main(prop: &'static str) {
     let strat = proptest::collection::vec(proptest::num::u32::ANY, 60..700);
     let mut runner = crate::gen::runner(args.subseed(if prop == "C01" { 101 } else { 102 }));
     let mut trees = crate::gen::batch(&strat, &mut runner, n);
-    let cases: Vec<Case> = trees.iter().map(|t| make_case(t.current(), &cfg, &names)).collect();
+    let mut cases: Vec<Case> = trees.iter().map(|t| make_case(t.current(), &cfg, &names)).collect();
+    // directed sweeps (C01): operator-nesting matrix and scope matrix, appended after the random cases
+    let n_random = cases.len();
+    let mut directed_labels: Vec<Vec<String>> = Vec::new();
+    if prop == "C01" {
+        let (ops, excluded, dropped) = crate::gprog_matrix::operator_programs(&cfg.sw, 120);
+        ev.set("operator_matrix_probes", json!(ops.iter().map(|(_, l)| l.len()).sum::<usize>()));
+        ev.set("operator_matrix_excluded_by_known_findings", json!(excluded));
+        ev.set("operator_matrix_dropped_out_of_domain", json!(dropped));
+        let scopes = crate::gprog_matrix::scope_programs(&cfg.sw);
+        ev.set("scope_matrix_cells", json!(scopes.iter().map(|(_, l)| l.len()).sum::<usize>()));
+        for (program, labels) in ops.into_iter().chain(scopes) {
+            let source = render(&program, &names);
+            let expected = expected(&program);
+            cases.push(Case { tape: vec![], program, source, expected });
+            directed_labels.push(labels);
+        }
+    }
     let mut results = run_cases(&farm, &cases, "prog");
     // a watchdog hit under load is not a verdict: re-run such cases alone with a long limit
     let mut solo = Farm::with_workers(&format!("{}-solo", prop.to_lowercase()), 1);
@@ -197,6 +214,16 @@ pub fn main(prop: &'static str) {
             ev.sample(json!({"source": c.source, "expected_lines": c.expected.as_ref().map(|e| e.lines.len()).unwrap_or(0), "verdict": "pass"}));
         }
         if let Some((key, detail)) = is_violation(prop, v) {
+            if i >= n_random {
+                // directed case: name the probe / cell the failing line belongs to
+                let labels = &directed_labels[i - n_random];
+                let line = detail.split("line ").nth(1).and_then(|r| r.split(':').next()).and_then(|x| x.trim().parse::<usize>().ok());
+                let label = line.map(|l| labels[l % labels.len().max(1)].clone()).unwrap_or_default();
+                let key = format!("{key}:directed:{}", label.replace(' ', "_"));
+                let body = replay_json(&c.source, c.expected.as_ref().ok(), &format!("{key}: {detail}"));
+                out.violation(&mut ev, &key, "json", &body, &format!("{detail}\nprobe/cell: {label}\n--- source ---\n{}", util::truncate(&c.source, 3000)));
+                continue;
+            }
             if out.seen(&key) || shrink_budget == 0 {
                 ev.violations += 1;
                 continue;
